@@ -43,6 +43,8 @@ type invocation struct {
 	AfterEOF []string // anything but (nil, io.EOF) after the first EOF
 	ReadErr  string
 	Runaway  bool
+
+	Redispatched int // embedded stanzas handed to the multiplexer from inside this handler
 }
 
 type elemRec struct {
@@ -56,11 +58,97 @@ type elemRec struct {
 }
 
 type driver struct {
-	c    *Case
-	mux  *mux.ServeMux
+	c       *Case
+	mux     *mux.ServeMux
+	mu      sync.Mutex
+	recs    []*elemRec
+	stray   []*invocation // invocations whose stanza value names no element of the case
+	pairEOF bool          // readers made for embedded stanzas return their last token together with io.EOF
+	bar     *barrier      // concurrent mode: handlers wait for each other so that dispatches overlap
+}
+
+// barrier lets the first handler of every concurrently dispatched element
+// wait until each of the other elements is inside a handler too, or done.
+type barrier struct {
 	mu   sync.Mutex
-	cur  int
-	recs []*elemRec
+	cond *sync.Cond
+	n    int
+	seen map[int]bool
+}
+
+func newBarrier(ids []int) *barrier {
+	b := &barrier{n: len(ids), seen: map[int]bool{}}
+	b.cond = sync.NewCond(&b.mu)
+	return b
+}
+
+func (b *barrier) arrive(id int, wait bool) {
+	b.mu.Lock()
+	if !b.seen[id] {
+		b.seen[id] = true
+		b.cond.Broadcast()
+		for wait && len(b.seen) < b.n {
+			b.cond.Wait()
+		}
+	}
+	b.mu.Unlock()
+}
+
+func idIndex(id string) int {
+	idx := -1
+	if strings.HasPrefix(id, "e") {
+		fmt.Sscanf(id[1:], "%d", &idx)
+	}
+	return idx
+}
+
+func startID(start *xml.StartElement) string {
+	if start != nil {
+		for _, a := range start.Attr {
+			if a.Name.Local == "id" && a.Name.Space == "" {
+				return a.Value
+			}
+		}
+	}
+	return ""
+}
+
+// subReader hands the handler-side tokens of an embedded stanza to a nested
+// dispatch (up to and including its end element) and records them for the
+// handler that forwards.
+type subReader struct {
+	r       xml.TokenReader
+	depth   int
+	done    bool
+	pairEOF bool
+	rec     *[]xml.Token
+}
+
+func (l *subReader) Token() (xml.Token, error) {
+	if l.done {
+		return nil, io.EOF
+	}
+	tok, err := l.r.Token()
+	if tok != nil {
+		*l.rec = append(*l.rec, xml.CopyToken(tok))
+	}
+	if err != nil {
+		l.done = true
+		return tok, err
+	}
+	switch tok.(type) {
+	case xml.StartElement:
+		l.depth++
+	case xml.EndElement:
+		if l.depth == 0 {
+			l.done = true
+			if l.pairEOF {
+				return tok, io.EOF
+			}
+		}
+		l.depth--
+	}
+	return tok, nil
 }
 
 func tokStr(t xml.Token) string {
@@ -96,6 +184,14 @@ func (d *driver) handle(p Pat, via string, start *xml.StartElement, typ, id stri
 		cp := start.Copy()
 		inv.Start = &cp
 	}
+	// the element this invocation belongs to is the one the handler is handed
+	owner := idIndex(id)
+	if via == "top" {
+		owner = idIndex(startID(start))
+	}
+	if d.bar != nil {
+		d.bar.arrive(owner, true)
+	}
 	nils := 0
 	for i := 0; p.Read < 0 || i < p.Read; i++ {
 		if i > 5000 {
@@ -113,6 +209,20 @@ func (d *driver) handle(p Pat, via string, start *xml.StartElement, typ, id stri
 		if err != nil {
 			inv.ReadErr = err.Error()
 			break
+		}
+		if se, ok := tok.(xml.StartElement); ok && p.Redispatch && i > 0 && isStanzaLocal(se.Name.Local) && idIndex(startID(&se)) >= 0 {
+			// an embedded stanza: dispatch it through the same multiplexer now,
+			// in the middle of the dispatch this handler is part of
+			es := se.Copy()
+			sub := &subReader{r: t, pairEOF: d.pairEOF, rec: &inv.Toks}
+			d.HandleXMPP(struct {
+				xml.TokenReader
+				xmlstream.Encoder
+			}{sub, t}, &es)
+			for k := 0; !sub.done && k < 5000; k++ {
+				sub.Token()
+			}
+			inv.Redispatched++
 		}
 		if tok == nil {
 			if nils++; nils > 3 {
@@ -139,8 +249,10 @@ func (d *driver) handle(p Pat, via string, start *xml.StartElement, typ, id stri
 		}
 	}
 	d.mu.Lock()
-	if d.cur >= 0 && d.cur < len(d.recs) {
-		d.recs[d.cur].invs = append(d.recs[d.cur].invs, inv)
+	if owner >= 0 && owner < len(d.recs) {
+		d.recs[owner].invs = append(d.recs[owner].invs, inv)
+	} else {
+		d.stray = append(d.stray, inv)
 	}
 	d.mu.Unlock()
 	return nil
@@ -176,14 +288,8 @@ func (d *driver) options() []mux.Option {
 // HandleXMPP wraps the multiplexer so that the element being handled and the
 // error it returns are known.
 func (d *driver) HandleXMPP(t xmlstream.TokenReadEncoder, start *xml.StartElement) (err error) {
-	idx := -1
-	for _, a := range start.Attr {
-		if a.Name.Local == "id" && strings.HasPrefix(a.Value, "e") {
-			fmt.Sscanf(a.Value[1:], "%d", &idx)
-		}
-	}
+	idx := idIndex(startID(start))
 	d.mu.Lock()
-	d.cur = idx
 	if idx >= 0 && idx < len(d.recs) {
 		d.recs[idx].handled = true
 	}
@@ -201,8 +307,10 @@ func (d *driver) HandleXMPP(t xmlstream.TokenReadEncoder, start *xml.StartElemen
 				d.recs[idx].stack = core.TrimStack(st)
 			}
 		}
-		d.cur = -1
 		d.mu.Unlock()
+		if d.bar != nil {
+			d.bar.arrive(idx, false)
+		}
 		if r != nil {
 			// reported by the judge; the caller sees an ordinary error
 			err = fmt.Errorf("panic in the multiplexer: %v", r)
@@ -212,8 +320,8 @@ func (d *driver) HandleXMPP(t xmlstream.TokenReadEncoder, start *xml.StartElemen
 }
 
 func newDriver(c *core.Case, cs *Case) *driver {
-	d := &driver{c: cs, cur: -1}
-	for range cs.Els {
+	d := &driver{c: cs}
+	for range cs.all() {
 		d.recs = append(d.recs, &elemRec{})
 	}
 	c.Guard("mux.New", func() { d.mux = mux.New(cs.StanzaNS, d.options()...) })
@@ -374,8 +482,8 @@ type judge struct {
 
 // judgeElement compares the record of element i with the reference and
 // returns false when later elements of a served session cannot be judged.
-func (j *judge) judgeElement(i int, full []xml.Token, rec *elemRec, written []string, haveWritten bool) bool {
-	c, e := j.c, j.cs.Els[i]
+func (j *judge) judgeElement(e *El, full []xml.Token, rec *elemRec, written []string, haveWritten bool) bool {
+	c := j.c
 	x := j.ref.expect(e)
 	kind := x.Kind
 	typ := effectiveType(e)
@@ -703,7 +811,99 @@ func (cs *Case) streamText() string {
 	return sb.String()
 }
 
+// memReader is an in-memory token reader of the kind xmlstream.Wrap,
+// stanza.Message.Wrap and xmlstream.MultiReader build: it returns its last
+// token together with io.EOF.
+type memReader struct {
+	toks  []xml.Token
+	i     int
+	pairs int
+}
+
+func (m *memReader) Token() (xml.Token, error) {
+	if m.i >= len(m.toks) {
+		return nil, io.EOF
+	}
+	t := m.toks[m.i]
+	m.i++
+	if m.i == len(m.toks) {
+		m.pairs++
+		return t, io.EOF
+	}
+	return t, nil
+}
+
+// subFull returns the tokens of the embedded stanza with the given id inside
+// the token list of its carrier.
+func subFull(full []xml.Token, id string) []xml.Token {
+	for k, t := range full {
+		se, ok := t.(xml.StartElement)
+		if !ok || k == 0 || startID(&se) != id || !isStanzaLocal(se.Name.Local) {
+			continue
+		}
+		depth := 0
+		for m := k + 1; m < len(full); m++ {
+			switch full[m].(type) {
+			case xml.StartElement:
+				depth++
+			case xml.EndElement:
+				if depth == 0 {
+					return full[k : m+1]
+				}
+				depth--
+			}
+		}
+	}
+	return nil
+}
+
+// judgeEmbedded judges the stanzas a forwarding handler re-dispatched.
+func (j *judge) judgeEmbedded(d *driver, e *El, full []xml.Token, outer *elemRec) {
+	for _, emb := range e.embedded() {
+		idx := idIndex(emb.ID)
+		sf := subFull(full, emb.ID)
+		if sf == nil || idx < 0 || idx >= len(d.recs) {
+			j.c.Count("harness_generation_errors", 1)
+			continue
+		}
+		forwarded := false
+		for _, inv := range outer.invs {
+			if inv.Redispatched > 0 {
+				forwarded = true
+			}
+		}
+		if !forwarded {
+			continue // reported on the carrier (its forwarding handler did not run)
+		}
+		if !d.recs[idx].handled {
+			j.c.Violate("mux:harness:embedded-not-redispatched", "[%s] the forwarding handler ran but the embedded stanza %s was not handed to the multiplexer", j.mode, emb.Raw(j.cs.StreamNS))
+			continue
+		}
+		j.judgeElement(emb, sf, d.recs[idx], nil, false)
+		if j.count {
+			j.c.Count("reentrant_dispatches", 1)
+		}
+	}
+}
+
+func (j *judge) judgeStray(d *driver) {
+	d.mu.Lock()
+	defer d.mu.Unlock()
+	for _, inv := range d.stray {
+		j.c.Violate("mux:stanza-value:unknown-id", "[%s] handler %s was handed a stanza value with id %q, which no element of the case has", j.mode, inv.Tag, inv.ID)
+	}
+}
+
 func runDirect(c *core.Case, cs *Case) {
+	runDirectForm(c, cs, "decoder")
+	runDirectForm(c, cs, "memory")
+}
+
+// runDirectForm feeds every element to ServeMux.HandleXMPP on an
+// element-limited reader: form "decoder" reads from an encoding/xml decoder
+// (the way the session does), form "memory" from an in-memory token reader that
+// returns its last token together with io.EOF.
+func runDirectForm(c *core.Case, cs *Case, form string) {
 	text := cs.streamText()
 	fulls, err := parseSent(text)
 	if err != nil || len(fulls) != len(cs.Els) {
@@ -715,52 +915,195 @@ func runDirect(c *core.Case, cs *Case) {
 	if d.mux == nil {
 		return
 	}
-	j := &judge{c: c, cs: cs, ref: newRef(cs), mode: "direct", pats: cs.patsByTag(), count: true}
+	mode := "direct"
+	if form == "memory" {
+		mode = "direct-memory-reader"
+		d.pairEOF = true
+	}
+	j := &judge{c: c, cs: cs, ref: newRef(cs), mode: mode, pats: cs.patsByTag(), count: form == "decoder"}
 	dec := xml.NewDecoder(strings.NewReader(text))
 	dec.Token() // header
 	var out bytes.Buffer
 	enc := xml.NewEncoder(&out)
 	for i := range cs.Els {
 		var start xml.StartElement
-		for {
-			tok, err := dec.Token()
-			if err != nil {
-				c.Notef("harness: lost position in the generated stream: %v", err)
-				return
+		var rd xml.TokenReader
+		var mr *memReader
+		if form == "memory" {
+			start = fulls[i][0].(xml.StartElement).Copy()
+			mr = &memReader{toks: fulls[i][1:]}
+			rd = mr
+		} else {
+			for {
+				tok, err := dec.Token()
+				if err != nil {
+					c.Notef("harness: lost position in the generated stream: %v", err)
+					return
+				}
+				if se, ok := tok.(xml.StartElement); ok {
+					start = se.Copy()
+					break
+				}
 			}
-			if se, ok := tok.(xml.StartElement); ok {
-				start = se.Copy()
-				break
-			}
+			rd = &limitReader{d: dec}
 		}
-		lr := &limitReader{d: dec}
 		rw := struct {
 			xml.TokenReader
 			xmlstream.Encoder
-		}{lr, enc}
+		}{rd, enc}
 		out.Reset()
 		c.Guard("ServeMux.HandleXMPP", func() { d.HandleXMPP(rw, &start) })
-		c.Count("direct_elements", 1)
+		if form == "memory" {
+			c.Count("direct_memory_reader_elements", 1)
+			if mr.pairs > 0 {
+				c.Count("memory_reader_last_token_delivered_with_eof", 1)
+			}
+		} else {
+			c.Count("direct_elements", 1)
+		}
 		enc.Flush()
 		var written []string
 		st := xmltree.ParseStream(out.Bytes(), false)
 		if st.Err != nil || st.Trailing {
-			c.Violate("mux:output:malformed", "[direct] element %s: what was written to the encoder is not a sequence of elements: %v\n%q", cs.Els[i].Raw(cs.StreamNS), st.Err, out.Bytes())
+			c.Violate("mux:output:malformed", "[%s] element %s: what was written to the encoder is not a sequence of elements: %v\n%q", mode, cs.Els[i].Raw(cs.StreamNS), st.Err, out.Bytes())
 			enc = xml.NewEncoder(&out)
 		}
 		for _, n := range st.Elems {
 			written = append(written, describe(n))
 		}
 		rec := d.recs[i]
-		j.judgeElement(i, fulls[i], rec, written, true)
+		j.judgeElement(cs.Els[i], fulls[i], rec, written, true)
+		j.judgeEmbedded(d, cs.Els[i], fulls[i], rec)
 		// advance to the end of the element, as the session does
-		for {
-			if _, err := lr.Token(); err != nil {
+		for k := 0; k < 100000; k++ {
+			if _, err := rd.Token(); err != nil {
 				break
 			}
 		}
-		sig(c, cs, j.ref, i)
+		if form == "decoder" {
+			sig(c, cs, j.ref, i)
+		}
 	}
+	j.judgeStray(d)
+}
+
+// runConcurrent dispatches the elements on one shared multiplexer from one
+// goroutine each.  The first handler reached for every element waits until
+// all the other elements are inside a handler (or finished), so the
+// dispatches overlap whatever the scheduler does.
+func runConcurrent(c *core.Case, cs *Case) {
+	els := cs.Els
+	if len(els) < 2 {
+		cl := *els[0]
+		cl.ID = "e1"
+		els = append(append([]*El(nil), els...), &cl)
+	}
+	cc := *cs
+	cc.Els = els
+	d := newDriver(c, &cc)
+	if d.mux == nil {
+		return
+	}
+	type job struct {
+		e       *El
+		full    []xml.Token
+		written []string
+		malform string
+		timeout bool
+	}
+	var jobs []*job
+	for _, e := range els {
+		one := cc
+		one.Els = []*El{e}
+		fulls, err := parseSent(one.streamText())
+		if err != nil || len(fulls) != 1 {
+			c.Count("harness_generation_errors", 1)
+			return
+		}
+		jobs = append(jobs, &job{e: e, full: fulls[0]})
+	}
+	dispatch := func(jb *job, k int) {
+		var out bytes.Buffer
+		enc := xml.NewEncoder(&out)
+		start := jb.full[0].(xml.StartElement).Copy()
+		var rd xml.TokenReader = &memReader{toks: jb.full[1:]}
+		if k%2 == 0 {
+			one := cc
+			one.Els = []*El{jb.e}
+			dec := xml.NewDecoder(strings.NewReader(one.streamText()))
+			dec.Token()
+			dec.Token()
+			rd = &limitReader{d: dec}
+		}
+		d.HandleXMPP(struct {
+			xml.TokenReader
+			xmlstream.Encoder
+		}{rd, enc}, &start)
+		enc.Flush()
+		st := xmltree.ParseStream(out.Bytes(), false)
+		if st.Err != nil || st.Trailing {
+			jb.malform = fmt.Sprintf("%v %q", st.Err, out.Bytes())
+		}
+		for _, n := range st.Elems {
+			jb.written = append(jb.written, describe(n))
+		}
+	}
+	// one ordinary dispatch first: a multiplexer that keeps state between
+	// stanzas has it by now
+	warm := &job{e: jobs[0].e, full: jobs[0].full}
+	c.Guard("ServeMux.HandleXMPP", func() { dispatch(warm, 1) })
+	d.mu.Lock()
+	for i := range d.recs {
+		d.recs[i] = &elemRec{}
+	}
+	d.stray = nil
+	d.mu.Unlock()
+
+	var ids []int
+	for _, jb := range jobs {
+		ids = append(ids, idIndex(jb.e.ID))
+	}
+	d.bar = newBarrier(ids)
+	var wg sync.WaitGroup
+	for k, jb := range jobs {
+		wg.Add(1)
+		go func(k int, jb *job) {
+			defer wg.Done()
+			defer d.bar.arrive(idIndex(jb.e.ID), false)
+			dispatch(jb, k)
+		}(k, jb)
+	}
+	done := make(chan struct{})
+	go func() { wg.Wait(); close(done) }()
+	select {
+	case <-done:
+	case <-time.After(20 * time.Second):
+		c.Count("concurrent_timeouts", 1)
+		c.Notef("concurrent dispatches did not finish within 20 s")
+		return
+	}
+	c.Count("concurrent_scenarios", 1)
+	c.Count("concurrent_dispatches", len(jobs))
+	j := &judge{c: c, cs: &cc, ref: newRef(&cc), mode: "concurrent", pats: cc.patsByTag()}
+	d.mu.Lock()
+	recs := append([]*elemRec(nil), d.recs...)
+	d.mu.Unlock()
+	overlapped := 0
+	for _, jb := range jobs {
+		rec := recs[idIndex(jb.e.ID)]
+		if len(rec.invs) > 0 {
+			overlapped++
+		}
+		if jb.malform != "" {
+			c.Violate("mux:output:malformed", "[concurrent] element %s: what was written to the encoder is not a sequence of elements: %s", jb.e.Raw(cc.StreamNS), jb.malform)
+			continue
+		}
+		j.judgeElement(jb.e, jb.full, rec, jb.written, true)
+	}
+	if overlapped >= 2 {
+		c.Count("concurrent_scenarios_with_overlapping_handlers", 1)
+	}
+	j.judgeStray(d)
 }
 
 func sig(c *core.Case, cs *Case, ref *refMux, i int) {
@@ -877,7 +1220,11 @@ func runServed(c *core.Case, cs *Case) {
 		mine := wire[pos:end]
 		pos = end
 		before := c.Violated()
-		if !j.judgeElement(i, fulls[i], rec, mine, true) || (!before && c.Violated()) {
+		ok := j.judgeElement(e, fulls[i], rec, mine, true)
+		if ok {
+			j.judgeEmbedded(d, e, fulls[i], rec)
+		}
+		if !ok || (!before && c.Violated()) {
 			c.Count("served_not_judged_after_divergence", len(cs.Els)-i-1)
 			return
 		}
@@ -1064,6 +1411,9 @@ func runCase(c *core.Case, cs *Case, reg *Reg) {
 	if cs.Served {
 		runServed(c, cs)
 	}
+	if cs.Concurrent {
+		runConcurrent(c, cs)
+	}
 	if reg != nil {
 		runRegistration(c, *reg)
 	}
@@ -1085,6 +1435,8 @@ func Prop() *core.Prop {
 		"handlers_read_all", "handlers_read_partial", "handlers_read_none", "handler_writes_seen",
 		"duplicate_registration_refused", "nil_registration_refused", "distinct_registration_accepted",
 		"served_sessions", "served_elements", "direct_elements",
+		"direct_memory_reader_elements", "memory_reader_last_token_delivered_with_eof", "reentrant_dispatches",
+		"concurrent_scenarios", "concurrent_dispatches", "concurrent_scenarios_with_overlapping_handlers",
 		"stanzas_with_own_name_payload_pattern", "iq_with_own_name_payload_pattern", "message_with_own_name_payload_pattern",
 		"presence_with_own_name_payload_pattern", "empty_stanza_own_name_pattern_wildcard_due", "empty_stanza_own_name_pattern_nothing_due",
 		"child_with_stanza_own_name_matched_by_pattern", "top_exact", "top_local", "top_ns", "other_nothing"}
@@ -1099,6 +1451,7 @@ func Prop() *core.Prop {
 	return &core.Prop{
 		ID:    "C14",
 		Level: core.Exploration,
+		Race:  true,
 		Rule:  "a case is a multiplexer (stanza namespace client/server/any) with a PRNG-drawn pattern set: for one or two (kind,type) pairs a random subset of the nine names over 2 local names x 2 namespaces (4 exact, 2 local-only, 2 namespace-only, the bare wildcard), for a quarter of those pairs also 1-3 payload patterns carrying the stanza's own element name / local name / content namespace (which an empty stanza must not be matched against; 4% of children carry the stanza's own name), up to 5 patterns with the same names under other kinds/types, up to 3 top-level names; 1-3 incoming elements (stanzas of the focus pairs, of other kinds/types, in the other content namespace, non-stanza top-level elements) with 0-4 children in any order, nested children, white space, names outside the universe. Every handler is tagged with its pattern, reads a fixed number of tokens (0-7 or until EOF and beyond) and may write a marker. Each element goes through ServeMux.HandleXMPP on an element-limited reader (and 1 case in 12 also through a served session); the handlers invoked, the tokens each could read and what reached the encoder are compared with a reference lookup written from the statement. 1 case in 4 also registers a duplicate, a nil handler, a nil handler function or a near-duplicate. distinct = (kind, empty/children, pattern-class mask for the first child, steps chosen, read classes, fallback).",
 		Assumptions: []string{
 			"a message without a type attribute is of type normal, a presence without one is available; elements with undefined type values are not generated",
@@ -1110,7 +1463,7 @@ func Prop() *core.Prop {
 		},
 		Cases: func(tier string) int {
 			if tier == "thorough" {
-				return 8000000
+				return 800000
 			}
 			return 20000
 		},
